@@ -313,7 +313,7 @@ class Runner:
                 chk.corr_break(f"{cell}/tree", f"model says `{out[:80]}`, implementation returned {itree}; line `{line[:200]}`", payload)
                 continue
             mtree = collapse_mul(parts[1])
-            if isinstance(payload, dict) and payload.get("kind") in ("lun", "run", "one3", "bc"):
+            if isinstance(payload, dict) and payload.get("kind") in ("lun", "run", "one3", "bc", "one2"):
                 # broadcasting may wrap operands without `_expand_batch` in BatchRepeat: compare modulo opaque ids
                 mtree, itree = re.sub(r"Opaque\d+", "Opaque", mtree), re.sub(r"Opaque\d+", "Opaque", itree)
             if mtree != itree:
@@ -330,12 +330,43 @@ class Runner:
         self.lines, self.meta = [], []
 
 
-BATCH_KINDS = {"none": ((), ()), "same2": ((2,), (2,)), "lun": ((), (2,)), "run": ((2,), ()), "one3": ((1,), (3,)),
+# sweep configuration (the size-1 sweep re-runs the pair / scalar / unary parts with n = 1)
+SIZE = {"n": 3, "kinds": None, "primary": "same2", "all": False, "batches": None}
+BATCH_KINDS = {"same1": ((1,), (1,)), "one2": ((1,), (2,)), "none": ((), ()), "same2": ((2,), (2,)), "lun": ((), (2,)), "run": ((2,), ()), "one3": ((1,), (3,)),
                "bc": ((2, 1), (3,))}
 SMALL6 = ["Dense", "Dense[psd]", "Diag", "Diag[signed]", "ConstantDiag", "Identity", "Zero", "Toeplitz", "Triangular[lower]",
           "Triangular[upper]", "Chol[lower]", "Root", "LowRankRoot", "AddedDiag", "LowRankRootAddedDiag", "Sum", "PsdSum",
           "ConstantMul", "Mul"]
 DIAGLIKE = ("Diag", "ConstantDiag", "Identity", "KroneckerDiag")
+
+
+def size1_customs(rng, dtype, batch):
+    """True 1x1 instances of the classes whose catalogue entry is larger than 1x1 at n = 1."""
+    from linear_operator.operators import (
+        BlockDiagLinearOperator, BlockInterleavedLinearOperator, ConstantDiagLinearOperator, DenseLinearOperator, DiagLinearOperator,
+        KroneckerProductAddedDiagLinearOperator, KroneckerProductDiagLinearOperator, KroneckerProductLinearOperator,
+        KroneckerProductTriangularLinearOperator, MaskedLinearOperator, MatmulLinearOperator, SumKroneckerLinearOperator,
+        TriangularLinearOperator)
+    v = lambda lo=1, hi=3: C.ri(rng, (*batch, 1, 1), lo, hi, dtype)
+    a, b, c, d = v(), v(), v(), v()
+    e = C.ri(rng, (*batch, 1), 1, 3, dtype)
+    r1, r2 = C.ri(rng, (*batch, 1, 2), -2, 2, dtype), C.ri(rng, (*batch, 2, 1), -2, 2, dtype)
+    g = C.ri(rng, (*batch, 2, 2), -2, 2, dtype)
+    kp = lambda x, y: KroneckerProductLinearOperator(DenseLinearOperator(x.clone()), DenseLinearOperator(y.clone()))
+    mk = [
+        ("Kronecker[1x1]", lambda: (kp(a, b), a * b), True),
+        ("KroneckerDiag[1x1]", lambda: (KroneckerProductDiagLinearOperator(DiagLinearOperator(a[..., 0].clone()), DiagLinearOperator(b[..., 0].clone())), a * b), True),
+        ("KroneckerTriangular[1x1]", lambda: (KroneckerProductTriangularLinearOperator(TriangularLinearOperator(a.clone()), TriangularLinearOperator(b.clone())), a * b), False),
+        ("KroneckerAddedDiag[diag,1x1]", lambda: (KroneckerProductAddedDiagLinearOperator(kp(a, b), DiagLinearOperator(e.clone())), a * b + e.unsqueeze(-1)), True),
+        ("KroneckerAddedDiag[const,1x1]", lambda: (KroneckerProductAddedDiagLinearOperator(kp(a, b), ConstantDiagLinearOperator(e.clone(), diag_shape=1)), a * b + e.unsqueeze(-1)), True),
+        ("SumKronecker[1x1]", lambda: (SumKroneckerLinearOperator(kp(a, b), kp(c, d)), a * b + c * d), True),
+        ("BlockDiag[1x1]", lambda: (BlockDiagLinearOperator(DenseLinearOperator(a.unsqueeze(-3).clone())), a), True),
+        ("BlockInterleaved[1x1]", lambda: (BlockInterleavedLinearOperator(DenseLinearOperator(a.unsqueeze(-3).clone())), a), True),
+        ("Matmul[1x1]", lambda: (MatmulLinearOperator(DenseLinearOperator(r1.clone()), DenseLinearOperator(r2.clone())), r1 @ r2), False),
+        ("Masked[1x1]", lambda: (MaskedLinearOperator(DenseLinearOperator(g.clone()), torch.tensor([False, True]), torch.tensor([True, False])),
+                                 g[..., 1:2, 0:1]), False),
+    ]
+    return [CustomInst(nm, f, psd=psd) for nm, f, psd in mk]
 
 
 def build_insts(rng, dtype, batch, n, thorough):
@@ -349,6 +380,8 @@ def build_insts(rng, dtype, batch, n, thorough):
     except TypeError:
         pass
     res = []
+    if n == 1:
+        its += size1_customs(rng, dtype, batch)
     for it in its:
         if "f32only" in it.tags and dtype != torch.float32:
             continue
@@ -423,13 +456,14 @@ def pair_line(op, A, B):
 def run_pairs(R, chk, thorough):
     rng = chk.rng
     dtype = torch.float64
-    kinds = list(BATCH_KINDS)
+    kinds = SIZE["kinds"] or [k for k in BATCH_KINDS if k not in ("same1", "one2")]
+    n0, primary = SIZE["n"], SIZE["primary"]
     insts = {}
 
     def get(batch):
         if batch not in insts:
-            l = build_insts(rng, dtype, batch, 3, thorough)
-            for (r, c) in ((3, 3), (6, 6), (3, 4)):
+            l = build_insts(rng, dtype, batch, n0, thorough)
+            for (r, c) in ((n0, n0), (2 * n0, 2 * n0), (n0, n0 + 1)):
                 l.append(TensorInst(rng, dtype, batch, r, c))
             insts[batch] = l
         return insts[batch]
@@ -439,10 +473,10 @@ def run_pairs(R, chk, thorough):
         for a in get(ba):
             for b in get(bb):
                 for op in pair_ops(a, b):
-                    if not thorough and kind != "same2":
+                    if not thorough and kind != primary and not SIZE["all"]:
                         # quick: `same2` for every pair, plus one seed-rotating other batch kind per (pair, op)
                         h = zlib.crc32(f"{a.cname}|{b.cname}|{op}".encode())
-                        others = [k for k in kinds if k != "same2"]
+                        others = [k for k in kinds if k != primary]
                         if others[(h + chk.seed) % len(others)] != kind:
                             continue
                     cell = f"C02/pair/{op}/{a.cname}/{b.cname}/b={kind}"
@@ -468,7 +502,7 @@ def run_pairs(R, chk, thorough):
                         line = pair_line(op, a.build() if a.name != "Tensor" else None, b.build() if b.name != "Tensor" else None)
                     except Exception:
                         line = None
-                    if (not thorough and kind != "same2") or (thorough and kind in ("one3", "bc")):
+                    if (not thorough and kind != primary and not SIZE["all"]) or (thorough and kind in ("one3", "bc")):
                         line = None   # the dispatch does not depend on batch shapes: model lines for a subset of the kinds
                     res = R.record(cell, desc, impl, spec, payload, exact=exact, model=line)
                     if op == "add" and res is not None and is_op(res) and a.psd and b.psd and a.name.split("(")[0] in SUM_FAMILY:
@@ -507,8 +541,8 @@ def has_rootish(op):
 def run_scalars(R, chk, thorough):
     rng = chk.rng
     for dtype in (torch.float64, torch.float32):
-        for batch in ((), (2,), (2, 3)) if thorough else ((), (2,)):
-            for it in build_insts(rng, dtype, batch, 3, thorough):
+        for batch in SIZE["batches"] or (((), (2,), (2, 3)) if thorough else ((), (2,))):
+            for it in build_insts(rng, dtype, batch, SIZE["n"], thorough):
                 if not it.square and not thorough:
                     pass
                 for sname, kind in SCALARS:
@@ -640,12 +674,12 @@ def run_unary(R, chk, thorough):
     rng = chk.rng
     from linear_operator.operators import cat as lo_cat
     for dtype in (torch.float64, torch.float32):
-        for batch in ((), (2,), (2, 3)):
+        for batch in SIZE["batches"] or ((), (2,), (2, 3)):
             if not thorough and dtype == torch.float32 and batch == (2, 3):
                 continue
-            its = build_insts(rng, dtype, batch, 3, thorough)
+            its = build_insts(rng, dtype, batch, SIZE["n"], thorough)
             for it in its:
-                if it.shape[-1] > 4 and it.name in SMALL6:
+                if it.shape[-1] > SIZE["n"] + 1 and it.name in SMALL6:
                     continue
                 for case in unary_cases(it, batch, rng, dtype):
                     name, fi, fs, fm = case
@@ -664,7 +698,7 @@ def run_unary(R, chk, thorough):
                     R.record(cell, desc, lambda it=it, fi=fi: fi(it.build()), lambda it=it, fs=fs: fs(it.dense),
                              {"part": "unary", "inst": it.name, "batch": list(batch), "case": name, "dtype": str(dtype)}, exact=exact, model=line)
             # cat of two operators along batch / row / column dimensions
-            sq = [it for it in its if it.shape[-2:] == (3, 3) and "fft" not in it.tags][:12]
+            sq = [it for it in its if it.shape[-2:] == (SIZE["n"], SIZE["n"]) and "fft" not in it.tags][:12]
             for i, a in enumerate(sq):
                 b = sq[(i + 3) % len(sq)]
                 for dim in ([-1, -2] + ([0] if batch else [])):
@@ -785,6 +819,32 @@ def run_batch3(R, chk, thorough):
                          {"part": "batch3", "inst": it.name, "case": name, "dtype": str(dtype)}, exact=exact, model=None,
                          opkind=name.replace("unsq-", "unsqueeze-"))
 
+
+
+# ----------------------------------------------------------------------------------------------- size-1 corner cases
+def run_size1(R, chk, thorough):
+    """The pair / scalar / unary sweeps again with n = 1 (1x1 operators of EVERY class, length-1 diagonals, size-1 batches,
+    0-d vs (1,) constants), all batch kinds, with model lines for every case.  Deterministic cell set, own random stream."""
+    import random
+    saved, rng0 = dict(SIZE), chk.rng
+    rec0 = R.record
+
+    def rec(cell, desc, impl_fn, spec_fn, payload, **kw):
+        if isinstance(payload, dict):
+            payload = dict(payload, part="size1")
+        return rec0(cell, desc, impl_fn, spec_fn, payload, **kw)
+    try:
+        chk.rng = random.Random(f"{PID}:size1:{chk.seed}")
+        SIZE.update(n=1, kinds=["none", "same1", "one2", "same2"], primary="same1", all=True, batches=((), (1,), (2,)))
+        R.record = rec
+        run_pairs(R, chk, thorough)
+        run_scalars(R, chk, thorough)
+        run_unary(R, chk, thorough)
+    finally:
+        SIZE.clear()
+        SIZE.update(saved)
+        chk.rng = rng0
+        R.record = rec0
 
 
 # ----------------------------------------------------------------------------------------------- operand re-use
@@ -1085,7 +1145,7 @@ def run(chk):
                 "either side) x {+,-,elementwise *,@} x batch-shape pairs {same, none, left/right unbatched, 1 vs 3, (2,1) vs (3,)} "
                 "(quick: `same` for every pair plus one seed-rotated other kind); (2) every instance x scalar kind x {*, r*, /}; "
                 "(3) every instance x unary rewrite (transpose, repeat, expand, unsqueeze/squeeze, permute, sum/prod over batch and "
-                "matrix dims, add_diagonal x3 shapes, add_jitter, add_low_rank, cat_rows, cat); (3b) every instance with THREE batch dims of different sizes (plus Cat along each batch dim with unequal pieces) x every batch permutation in S3 (positive / negative dims, applied twice), transpose of every batch pair, unsqueeze/squeeze/expand at every position, repeat/sum/prod over each batch dim; (3c) one operator OBJECT used by a sequence of read-only operations, operand checked after each; (4) seed-random expression programs "
+                "matrix dims, add_diagonal x3 shapes, add_jitter, add_low_rank, cat_rows, cat); (3b) every instance with THREE batch dims of different sizes (plus Cat along each batch dim with unequal pieces) x every batch permutation in S3 (positive / negative dims, applied twice), transpose of every batch pair, unsqueeze/squeeze/expand at every position, repeat/sum/prod over each batch dim; (3a) the pair / scalar / unary sweeps with n = 1 (1x1 instance of every class, size-1 batches, all batch kinds, every case with a model line); (3c) one operator OBJECT used by a sequence of read-only operations, operand checked after each; (4) seed-random expression programs "
                 "of depth <= 3 (quick) / 5 (thorough).  distinct = distinct (cell description); non-trivial = dense result has more "
                 "than one entry and is not all zero.  Each case: implementation vs dense torch expression (value, shape, dtype), and "
                 "for modelled classes implementation vs Lean model (class tree exact, values exact on the first batch element).")
@@ -1096,8 +1156,8 @@ def run(chk):
     chk.prove("LinOp.Properties.C02", ["LinOp/C02", "LinOp/Generated/C02Table.lean", "LinOp/Core/Parse.lean", "LinOp/Core/Basic.lean",
                                        "LinOp/Core/Bridge.lean"])
     R = Runner(chk)
-    parts = os.environ.get("C02_PARTS", "pairs,scalars,unary,batch3,reuse,programs").split(",")
-    for name, fn in (("pairs", run_pairs), ("scalars", run_scalars), ("unary", run_unary), ("batch3", run_batch3), ("reuse", run_reuse), ("programs", run_programs)):
+    parts = os.environ.get("C02_PARTS", "pairs,scalars,unary,size1,batch3,reuse,programs").split(",")
+    for name, fn in (("pairs", run_pairs), ("scalars", run_scalars), ("unary", run_unary), ("size1", run_size1), ("batch3", run_batch3), ("reuse", run_reuse), ("programs", run_programs)):
         t = time.time()
         if name in parts:
             fn(R, chk, thorough)
@@ -1122,7 +1182,9 @@ def replay(chk, payload):
     R = Runner(chk)
     thorough = chk.tier == "thorough"
     part = pl["part"]
-    if part == "batch3":
+    if part == "size1":
+        run_size1(R, chk, thorough)
+    elif part == "batch3":
         run_batch3(R, chk, thorough)
     elif part == "reuse":
         run_reuse(R, chk, thorough)
